@@ -530,6 +530,7 @@ def seq_of(ex, v):
     if isinstance(v, SeqIter):
         r = v.rest(); v.i = len(v.items); return r
     if isinstance(v, RangeIter): return v.drain(ex)
+    if isinstance(v, BoxV) and isinstance(deref(v.f[0]), (SeqIter, RangeIter)): return seq_of(ex, deref(v.f[0]))      # Box<dyn Iterator>
     if isinstance(v, Struct) and simple_name(v.ty) == 'Range': return RangeIter(v).drain(ex)
     if isinstance(v, VecV): return [Ref(v.items, i) for i in range(len(v.items))] if borrowed else list(v.items)
     if isinstance(v, SliceV): return [Ref(v.vec.items, i) for i in range(v.lo, v.hi)]
@@ -914,6 +915,21 @@ def int_default(ex, args): return 0
 
 @model(r'<(?:std::ops::|core::ops::|ops::)?Range<(?:u8|u16|u32|u64|usize|i32|i64|isize)> as Default>::default')
 def range_default(ex, args): return Struct('ops::Range', [0, 0])
+
+
+# ---- RefCell: single-threaded interior mutability; the borrow flag is not modelled (a double borrow would panic natively)
+@model(r'(?:std::cell::|core::cell::|cell::)?RefCell::<.*>::new')
+def refcell_new(ex, args): return Struct('RefCell', [args[0]])
+
+
+@model(r'(?:std::cell::|core::cell::|cell::)?RefCell::<.*>::(borrow|borrow_mut)')
+def refcell_borrow(ex, args, m): return Ref(deref(args[0]).f, 0)
+
+
+@model(r"<(?:std::cell::|core::cell::|cell::)?(?:RefMut|Ref)<'_, .*> as (?:std::ops::|core::ops::|ops::)?(?:Deref|DerefMut)>::(deref|deref_mut)")
+def refcell_deref(ex, args, m):
+    a = args[0]
+    return a.get() if isinstance(a, Ref) and isinstance(a.get(), Ref) else a
 
 
 @model(r'<bool as Default>::default')
